@@ -3,11 +3,16 @@
 Theorems: lean/Tranp/Props/C02.lean (ladder = CPython's table by `decide` over the generated ladder; grouping round trip
 for every operator term; decision logic of the first-match class dispatch), over lean/Tranp/Prec.lean,
 Model/Ladder.lean, Model/Classify.lean.
-Tie: translators translate/gen_grammar_ladder.py + gen_resolver_table.py; correspondence streams
+Tie: translators translate/gen_grammar_ladder.py + gen_resolver_table.py + gen_decl_matchers.py + gen_grammar_parents.py +
+gen_match_features.py (every match_feature body pinned by skeleton digest, its constants generated); correspondence streams
   `lark-vs-rd`  real lark tree of generated operator texts        vs  rdParse over the generated ladder,
   `classify`    real `type(node).__name__` at every tree position  vs  first-match model over the generated table,
   `pygroup`     `ast.parse` of printMin pyTable e                  vs  astOf e / toAst(rdParse(...)) (validates pyTable).
-Search (real code only): canon(nodes(s)) == canon(ast.parse(s)) for generated programs of the common language.
+Search (real code only): canon(nodes(s)) == canon(ast.parse(s)) for generated programs of the common language; the canon carries
+the KIND of every node whose class goes by a name (function kinds, Enum / Class, Super / FuncCall, list / dict / callable / custom
+generic types, self / cls references, declaration / reference roles), computed on the CPython side from the ast alone; fixed
+near-miss programs (near_miss_programs) put every word the classification goes by, and every name that merely contains it, at
+every steering position on every run.
 """
 from __future__ import annotations
 
@@ -2087,7 +2092,7 @@ def search_canon(ctx: Ctx) -> SearchResult:
 	constructs: Counter[str] = Counter()
 	deadline = Deadline(ctx, 75, 900)
 	for src, name in sources:
-		if deadline.over() and not name.startswith('corpus'):
+		if deadline.over() and not name.startswith(('corpus', 'fixed:')):
 			hist['deadline-reached'] += 1
 			continue
 		res.cases += 1
@@ -2186,7 +2191,7 @@ def run(ctx: Ctx) -> int:
 		partial={
 			'proved': 'operator precedence/associativity/chaining, unary and boolean grouping, conditional expressions and lambdas (rule `expression` with parentheses re-entering it) over the ladder read from grammar.lark, for all terms; reading of call argument lists; first-match classification logic and its agreement with Python scoping under stated conventions',
 			'correspondence_only': 'lark\'s LALR result equals the reference parser on `expression` without trailers/displays (lark-vs-rd); match_feature models (classify); Argument label/unpacking (call-args); pyTable/astOfT are CPython\'s (pygroup)',
-			'search_only': 'attribute/index/slice chains and calls as operands (trailers), literals, list/tuple/dict displays, comprehensions, statement nesting, parameters, decorators, class bases (canon equality against CPython ast)',
+			'search_only': 'attribute/index/slice chains and calls as operands (trailers), literals, list/tuple/dict displays, comprehensions, statement nesting, parameters, decorators, class bases (canon equality against CPython ast); the node properties that read children by index / relative path',
 		},
 		assumptions=[
 			'lark returns a derivation of grammar.lark (LALR construction and PythonIndenter are not modelled)',
